@@ -32,6 +32,29 @@ class Query:
         self.ll = None
 
 
+class _MemBudget:
+    """admission control: the expected memory (GB) of the queries running at the same time stays below the budget"""
+
+    def __init__(self, total):
+        import threading
+        self.total = total
+        self.used = 0
+        self.cv = threading.Condition()
+
+    def acquire(self, w):
+        w = min(w, self.total)
+        with self.cv:
+            while self.used + w > self.total:
+                self.cv.wait()
+            self.used += w
+
+    def release(self, w):
+        w = min(w, self.total)
+        with self.cv:
+            self.used -= w
+            self.cv.notify_all()
+
+
 class Check:
     level = 'model_checking'
 
@@ -94,8 +117,12 @@ class Check:
         # longest-first would be better, but the order only matters for wall time: the set of queries is fixed
         n = [0]
 
+        budget = _MemBudget(int(os.environ.get('VF_MEM_BUDGET_GB', '48')))
+
         def mk(q):
             def f():
+                w = getattr(q, 'mem_weight', 1)
+                budget.acquire(w)
                 try:
                     return self.run_query(q)
                 except BrokenCheck as e:
@@ -105,6 +132,8 @@ class Check:
                     r.log = str(e)
                     q.result = r
                     return r
+                finally:
+                    budget.release(w)
             return f
 
         def prog(i, r):
